@@ -20,8 +20,9 @@ from mc.gen import NODEF, SYMBOLS
 
 
 class Fail(Exception):
-    def __init__(self, error: str):
+    def __init__(self, error: str, reason: str = "processor"):
         self.error = error
+        self.reason = reason  # unresolvable | type-gate | undeclared-write | collision | processor
 
 
 class Outcome:
@@ -36,6 +37,7 @@ class Outcome:
         self.table: List[Dict[str, Tuple[Any, str]]] = []
         self.diffs: List[Dict[str, List[str]]] = []
         self.states: List[Tuple[Any, Dict[str, Any]]] = []
+        self.reason: Optional[str] = None
 
     def key(self):
         return (self.status, self.index, self.error, repr(self.data), repr(sorted(self.ctx.items(), key=lambda kv: kv[0])))
@@ -59,7 +61,7 @@ def resolve(sym: dict, ctx: Dict[str, Any]) -> Dict[str, Tuple[Any, str]]:
         elif default != NODEF:
             out[name] = (default, "default")
         else:
-            raise Fail("KeyError")
+            raise Fail("KeyError", "unresolvable")
     return out
 
 
@@ -83,7 +85,7 @@ def float_op(proc: str, x: float, p: Dict[str, Any], ctx: Dict[str, Any], log: l
         return x + 1.0
     if proc == "VBadWrite":
         log.append(("VBadWrite", {}))
-        raise Fail("KeyError")  # write to an undeclared key
+        raise Fail("KeyError", "undeclared-write")  # write to an undeclared key
     if proc == "VInterrupt":
         log.append(("VInterrupt", {}))
         raise Fail("KeyboardInterrupt")
@@ -117,7 +119,7 @@ def step(sym: dict, data: Any, ctx: Dict[str, Any], out: Outcome) -> Any:
     log = out.log
     if kind in INPUT_KIND:
         if data[0] != sym.get("in", INPUT_KIND[kind]):
-            raise Fail("TypeError")  # runtime input-type gate
+            raise Fail("TypeError", "type-gate")  # runtime input-type gate
     p_full = resolve(sym, ctx)
     out.table.append(p_full)
     p = {k: v for k, (v, _) in p_full.items()}
@@ -129,7 +131,7 @@ def step(sym: dict, data: Any, ctx: Dict[str, Any], out: Outcome) -> Any:
     if kind == "paysource":
         log.append(("VPaySrc", {}))
         if "b" in ctx:
-            raise Fail("KeyError")  # payload-source merge refuses existing keys
+            raise Fail("KeyError", "collision")  # payload-source merge refuses existing keys
         ctx["b"] = 5.0
         return ("F", 7.0)
     if kind == "op":
@@ -193,6 +195,7 @@ def run(prog: Sequence[str], data: Any, ctx: Dict[str, Any]) -> Outcome:
         sym = SYMBOLS[s]
         if sym["kind"] == "invalid":
             out.status, out.error, out.index = "construct", sym["error"], i
+            out.reason = "construct"
             out.data, out.ctx = data, ctx
             return out
     for i, s in enumerate(prog):
@@ -204,6 +207,7 @@ def run(prog: Sequence[str], data: Any, ctx: Dict[str, Any]) -> Outcome:
         except (Fail, TypeError) as f:
             # a Python TypeError inside the processor's own arithmetic (e.g. float * list) is a processor error
             out.status, out.error, out.index = "fail", getattr(f, "error", "TypeError"), i
+            out.reason = getattr(f, "reason", "processor")
             out.data, out.ctx = data, ctx
             return out
         if len(out.table) == ntab:
